@@ -188,6 +188,10 @@ func runC30(c vt.Case) vt.Event {
 	grouper := compact.NewDefaultGrouper(logger, inner, false, kind == "vdown", prometheus.NewRegistry(), cnt, cnt, cnt, metadata.NoneFunc, 1, 1)
 	gauge := extprom.NewTxGaugeVec(nil, prometheus.GaugeOpts{}, []string{"state"})
 
+	decoys := 0
+	if v, ok := c["decoys"]; ok {
+		decoys = vt.Int(v)
+	}
 	steps := []any{}
 	converged := false
 	maxSteps := 2*n + 4
@@ -215,10 +219,63 @@ func runC30(c vt.Case) vt.Event {
 			panic(err)
 		}
 		pre := ncFilter.NoCompactMarkedBlocks()
-		groups, err := grouper.Groups(metas)
-		if err != nil || len(groups) != 1 {
-			panic(fmt.Sprintf("harness: grouping: %v (%d groups)", err, len(groups)))
+		// phase 2: decoy blocks of OTHER compaction groups (other external labels, other resolution) with the time
+		// ranges of the group's own blocks go through the same real grouper; the plan must name none of them
+		var ownID ulid.ULID
+		for id := range metas {
+			ownID = id
+			break
 		}
+		if nd := decoys; nd > 0 {
+			k := 0
+			cids := make([]int, 0, len(cur))
+			for id := range cur {
+				cids = append(cids, id)
+			}
+			sort.Ints(cids)
+			for _, cid := range cids {
+				b := cur[cid]
+				if k >= nd {
+					break
+				}
+				m := &metadata.Meta{}
+				m.Version = 1
+				m.ULID = idULID(100000 + b.id)
+				m.MinTime, m.MaxTime = toMs(b.mint), toMs(b.maxt)
+				m.Stats = tsdb.BlockStats{NumSeries: 19, NumSamples: 100}
+				m.Compaction.Level = 1
+				m.Compaction.Sources = []ulid.ULID{m.ULID}
+				m.Thanos.Labels = map[string]string{"grp": "a"}
+				m.Thanos.Downsample.Resolution = res
+				if k%2 == 0 {
+					m.Thanos.Labels = map[string]string{"grp": "b"}
+				} else {
+					m.Thanos.Downsample.Resolution = 300000 - res // the other one of raw / 5m
+				}
+				m.Thanos.Source = metadata.TestSource
+				m.Thanos.Files = []metadata.File{{RelPath: "index", SizeBytes: idxUnit}, {RelPath: "meta.json"}}
+				metas[m.ULID] = m
+				k++
+			}
+		}
+		groups, err := grouper.Groups(metas)
+		var own *compact.Group
+		for _, g := range groups { // the group that holds the case's blocks
+			for _, id := range g.IDs() {
+				if id == ownID {
+					own = g
+				}
+			}
+		}
+		if err != nil || own == nil {
+			es := "no group for the blocks"
+			if err != nil {
+				es = err.Error()
+			}
+			steps = append(steps, map[string]any{"blocks": []any{}, "plan": []int{}, "marked": []int{}, "err": "error: grouping: " + es})
+			break
+		}
+		groups = []*compact.Group{own}
 		input := compact.VerifGroupMetas(groups[0])
 		blocks := make([]any, 0, len(input))
 		for _, m := range input {
@@ -428,7 +485,7 @@ func randomLayout(r *rand.Rand) vt.Case {
 		}
 		ds = kind == "vdown" && r.Intn(2) == 0
 	}
-	return vt.Case{"ranges": rs, "blocks": blocks, "kind": kind, "thr": thr, "ds": ds, "src": "rand"}
+	return vt.Case{"ranges": rs, "blocks": blocks, "kind": kind, "thr": thr, "ds": ds, "src": "rand", "decoys": r.Intn(4)}
 }
 
 func plainBlock(mint, maxt, isz int) map[string]any {
